@@ -21,7 +21,8 @@ pub struct DfsSpec {
     pub start: usize,
     pub depth: usize,
     pub max_drops: u32,
-    pub d: u32,
+    /// hold durations offered at every choice point (rounds)
+    pub holds: Vec<u32>,
     pub max_execs: u64,
     /// wall-clock guard: stop expanding (truncated) once past this instant
     pub deadline: Option<std::time::Instant>,
@@ -101,7 +102,7 @@ pub fn explore(spec: &DfsSpec, judge_flags: &dyn Fn(&Scn, &Outcome) -> (bool, bo
     let mut st = DfsStats::default();
     let mut visited: HashMap<u64, usize> = HashMap::new();
     let mut stack: Vec<Vec<Fate>> = vec![vec![]];
-    let mut alts: Vec<Fate> = (1..=spec.d).map(Fate::Hold).collect();
+    let mut alts: Vec<Fate> = spec.holds.iter().map(|k| Fate::Hold(*k)).collect();
     alts.push(Fate::Drop);
     let mut dig = vcore::Fnv::new();
     while let Some(prefix) = stack.pop() {
